@@ -2078,7 +2078,10 @@ func (r *Runner) transferCapture(capnum, uncapnum, start, end int) {
 		end = start
 		start = end2
 	} else if end <= start2 {
-		start = start2
+		// the interval being closed lies to the left of the one it cancels (right-to-left matching):
+		// the innermost interval runs from its end to the other's start
+		start = end
+		end = start2
 	} else {
 		if end > end2 {
 			end = end2
